@@ -1354,7 +1354,8 @@ def _forget_constants(ctx: Dict[str, object], names: Set[str]) -> None:
     vars_env = ctx.get("vars", {})
     list_info = ctx.get("list_info", {})
     for name in names:
-        if name.startswith("_"):
+        if name in ("_ctx", "_helpers"):
+            # internal entries of the environment, not user variables
             continue
         if name in vars_env and not isinstance(vars_env[name], _ExprStr):
             vars_env[name] = _ExprStr(name)
